@@ -117,7 +117,7 @@ def check_traversal(a, text):
             calls.append(("generic", id(node)))
             return NodeVisitor.generic_visit(self, node)
 
-        V = type("V_" + K, (NodeVisitor,), {"visit_" + K: handler, "generic_visit": gen})
+        V = type("V", (NodeVisitor,), {"visit_" + K: handler, "generic_visit": gen})  # same class name on purpose
         try:
             V().visit(a)
         except Exception as e:
@@ -146,7 +146,7 @@ def check_traversal(a, text):
         def handler(self, node):
             return change(NodeTransformer.generic_visit(self, node))
 
-        T = type("T_" + K, (NodeTransformer,), {"visit_" + K: handler})
+        T = type("V", (NodeTransformer,), {"visit_" + K: handler})  # same class name on purpose
         try:
             got = T().visit(a)
             exp = ref_map(a, K, change)
